@@ -45,6 +45,7 @@ type gen struct {
 	m        *Model
 	ops      []Op
 	maxBatch int
+	deep     bool // keep the filter tip low so that bulk block rollbacks can be thousands deep
 }
 
 // Generate builds history number idx of the run with the given seed. When
@@ -63,9 +64,18 @@ func Generate(seed int64, idx int, e *Env, smallOnly bool) *History {
 	default:
 		h.Class, g.maxBatch = "large", 500
 	}
+	if idx%25 == 7 && !smallOnly {
+		// Deep: batches and bulk rollbacks of several thousand headers
+		// (more than one wire-message worth, the chunk size store code
+		// tends to borrow).
+		h.Class, g.maxBatch, g.deep = "deep", 2600, true
+	}
 	length := 30 + rng.Intn(271)
 	if h.Class == "large" {
 		length = 30 + rng.Intn(91)
+	}
+	if h.Class == "deep" {
+		length = 20 + rng.Intn(25)
 	}
 	for len(g.ops) < length {
 		g.step()
@@ -193,6 +203,8 @@ func (g *gen) step() {
 	switch p := g.rng.Intn(100); {
 	case p < 30:
 		g.appendBlocks(g.newBlocks(g.batchSize()), "new")
+	case p < 50 && g.deep && (m.FTip() >= 12 || g.rng.Intn(3) != 0):
+		g.appendBlocks(g.newBlocks(g.batchSize()), "new")
 	case p < 50:
 		gap := int(m.BTip() - m.FTip())
 		k := g.batchSize()
@@ -235,7 +247,7 @@ func (g *gen) step() {
 	default:
 		// Grow: blocks then filters up to the block tip.
 		g.appendBlocks(g.newBlocks(1+g.rng.Intn(g.maxBatch)), "new")
-		if gap := int(m.BTip() - m.FTip()); gap > 0 && gap <= 2*g.maxBatch {
+		if gap := int(m.BTip() - m.FTip()); gap > 0 && gap <= 2*g.maxBatch && !g.deep {
 			g.appendFilters(gap)
 		}
 	}
